@@ -100,9 +100,10 @@ def _one_impl(sc, algpair, idx: int, seed: int):
         hdr = {"alg": alg, "enc": enc}
     if sc["typ"] != "absent":
         hdr["typ"] = "JWT" if sc["typ"] == "JWT" else "at+jwt"
-    priv = J.fresh_jkey({**jwk, "kid": "the-kid"}) if sc["keyarg"] == "keyset" else J.fresh_jkey(jwk)
+    the_kid = "" if idx % 3 == 1 else "the-kid"          # a kid is any string, the empty one included
+    priv = J.fresh_jkey({**jwk, "kid": the_kid}) if sc["keyarg"] == "keyset" else J.fresh_jkey(jwk)
     pubj = J.pub(jwk)
-    pub = J.fresh_jkey({**pubj, "kid": "the-kid"}) if sc["keyarg"] == "keyset" else J.fresh_jkey(pubj)
+    pub = J.fresh_jkey({**pubj, "kid": the_kid}) if sc["keyarg"] == "keyset" else J.fresh_jkey(pubj)
     enc_key = (priv if tr == "jws" else pub)
     dec_key = (pub if tr == "jws" else priv)
     if sc["keyarg"] == "keyset":
@@ -112,7 +113,18 @@ def _one_impl(sc, algpair, idx: int, seed: int):
         claims, exp_claims = ({}, {}) if sc["payload"] == "empty_object" else gen_claims(rnd)
         caller = dict(hdr)
         try:
-            tok = jwt.encode(caller, claims, enc_key, **kwargs)
+            ekw = dict(kwargs)
+            if idx % 2:
+                # the caller's own JSON encoder (for a type of theirs) must not switch off the NumericDate conversion
+                import uuid
+
+                class AppEncoder(json.JSONEncoder):
+                    def default(self, o):
+                        if isinstance(o, uuid.UUID):
+                            return str(o)
+                        return super().default(o)
+                ekw["encoder_cls"] = AppEncoder
+            tok = jwt.encode(caller, claims, enc_key, **ekw)
         except Exception as e:  # noqa
             return [("encode-raised:" + type(e).__name__, str(e)[:100])]
         if caller != hdr:
@@ -126,7 +138,7 @@ def _one_impl(sc, algpair, idx: int, seed: int):
                 exp_claims = {}
         fh = {"typ": "JWT", **hdr}
         if sc["keyarg"] == "keyset":
-            fh["kid"] = "the-kid"
+            fh["kid"] = the_kid
         if tr == "jws":
             tok = R.jws_compact(R.jdump(fh), body, alg, jwk)
         else:
@@ -157,7 +169,7 @@ def _one_impl(sc, algpair, idx: int, seed: int):
             fails.append(("typ-differs", str(t.header.get("typ"))))
         if any(t.header.get(k) != v for k, v in hdr.items()):
             fails.append(("header-differs", json.dumps(t.header)[:100]))
-        if sc["keyarg"] == "keyset" and t.header.get("kid") != "the-kid":
+        if sc["keyarg"] == "keyset" and t.header.get("kid") != the_kid:
             fails.append(("kid-missing", json.dumps(t.header)[:100]))
         # the returned objects belong to the caller: editing them must not change what a later decode returns
         if not fails:
